@@ -706,12 +706,14 @@ class choice_converters:
         if is_plain_auto(words=source_words):
             return master.customized_copy(words=[tokenizer.word(value="Auto")])
         flags = {}
+        alternatives = []
         for word in master.words:
             if word.value.startswith("*"):
                 value = word.value[1:]
             else:
                 value = word.value
             flags[value.lower()] = False
+            alternatives.append(value)
         if (master.optional is not None and not master.optional) or not is_plain_none(
             words=source_words
         ):
@@ -724,6 +726,10 @@ class choice_converters:
                 if word.value.find("+") >= 0:
                     have_plus = True
             process_plus = False
+            if [word.value for word in source_words] == alternatives:
+                # the complete list without a star (what format writes when nothing
+                # is selected) is not the a+b form, also if names contain "+"
+                have_plus = False
             if not have_quote_or_star and have_plus:
                 values = "".join([word.value for word in source_words]).split("+")
                 for value in values[1:]:
